@@ -733,6 +733,92 @@ def check_tree_iterators(chk, F):
     chk.floor(rid, "trees", n, 40)
 
 
+# ---- R20.11 the Threshold combinators translations are built from -----------------------------------------------------------------
+
+def check_threshold_combinators(chk, F):
+    import itertools
+    from .. import builtins as B
+    rid = "R20.11"
+    chk.rule(rid, "Threshold::{map, map_ref, translate, translate_ref, translate_by_index, map_from_post_order_iter, "
+                  "forget_maximum, into_data, and_n, or_n} keep k (n / 1 for and_n / or_n), the number of elements and their "
+                  "order, apply the function to every element once (by index for translate_by_index, by the given child index "
+                  "for map_from_post_order_iter), and a failing element fails the translation with that element's error")
+    T = "primitives::threshold::Threshold"
+    names = ["map", "map_ref", "translate", "translate_ref", "translate_by_index", "map_from_post_order_iter", "forget_maximum",
+             "into_data", "and_n", "or_n"]
+    fns = {}
+    for nm in names:
+        try:
+            fns[nm] = F.fn(nm, file="primitives/threshold.rs")
+        except KeyError as e:
+            chk.fail(rid, "anchor|" + nm, "Threshold::%s not found: %s" % (nm, e), kind="unanalysable")
+            return
+    chk.saw(*fns.values())
+    m = Machine(F, strict=True)
+    n = 0
+
+    def th(k, items):
+        return Adt(T, "Threshold", {"k": k, "inner": PyVec(list(items))})
+
+    def items_of(v):
+        return [B.deref(x) for x in B.deref(v.fields["inner"]).items]
+    try:
+        for size, k in ((1, 1), (2, 1), (3, 2), (4, 4)):
+            elems = ["e%d" % i for i in range(size)]
+            for nm in ("map", "map_ref"):
+                r = m.call_callee({"def": fns[nm], "resolved": fns[nm], "name": nm, "targs": ["T", "U", "F"], "cargs": ["20"]},
+                                  [th(k, elems), lambda x: ("f", B.deref(x))])
+                n += 1
+                chk.obligation(rid, r.fields["k"] == k and items_of(r) == [("f", e) for e in elems], "%s|n=%d" % (nm, size),
+                               "%s gives k=%r %r" % (nm, r.fields["k"], items_of(r)), where="src/primitives/threshold.rs")
+            for nm in ("translate", "translate_ref", "translate_by_index"):
+                for fail in [None] + list(range(size)):
+                    seen = []
+
+                    def f(x, fail=fail, seen=seen, nm=nm):
+                        x = B.deref(x)
+                        seen.append(x)
+                        key_ = x if nm == "translate_by_index" else elems.index(x)
+                        return err(("E", key_)) if key_ == fail else ok(("f", x))
+                    r = m.call_callee({"def": fns[nm], "resolved": fns[nm], "name": nm, "targs": ["T", "U", "F", "E"], "cargs": ["20"]},
+                                      [th(k, elems), f])
+                    n += 1
+                    src = list(range(size)) if nm == "translate_by_index" else elems
+                    if fail is None:
+                        good = r.variant == "Ok" and r.fields["0"].fields["k"] == k and items_of(r.fields["0"]) == [("f", e) for e in src] \
+                            and seen == src
+                    else:
+                        good = r.variant == "Err" and B.deref(r.fields["0"]) == ("E", fail)
+                    chk.obligation(rid, good, "%s|n=%d|fails=%s" % (nm, size, fail), "%s gives %r after visiting %r" % (nm, r, seen),
+                                   where="src/primitives/threshold.rs")
+            for perm in itertools.permutations(range(size)):
+                idx = [p_ + 1 for p_ in perm]          # indices into a longer vector of processed results
+                processed = ["r%d" % i for i in range(size + 2)]
+                r = m.call_callee({"def": fns["map_from_post_order_iter"], "resolved": fns["map_from_post_order_iter"], "name": "map_from_post_order_iter",
+                                   "targs": ["T", "U"], "cargs": ["20"]}, [th(k, elems), PyVec(list(idx)), PyVec(list(processed))])
+                n += 1
+                chk.obligation(rid, r.fields["k"] == k and items_of(r) == [processed[i] for i in idx], "map_from_post_order_iter|%s" % (idx,),
+                               "map_from_post_order_iter gives k=%r %r" % (r.fields["k"], items_of(r)), where="src/primitives/threshold.rs")
+            r = m.call_callee({"def": fns["forget_maximum"], "resolved": fns["forget_maximum"], "name": "forget_maximum", "targs": ["T"], "cargs": ["20"]}, [th(k, elems)])
+            n += 1
+            chk.obligation(rid, r.fields["k"] == k and items_of(r) == elems, "forget_maximum|n=%d" % size, "forget_maximum gives %r" % (r,),
+                           where="src/primitives/threshold.rs")
+            r = m.call_callee({"def": fns["into_data"], "resolved": fns["into_data"], "name": "into_data", "targs": ["T"], "cargs": ["20"]}, [th(k, elems)])
+            n += 1
+            chk.obligation(rid, [B.deref(x) for x in B.deref(r).items] == elems, "into_data|n=%d" % size, "into_data gives %r" % (r,),
+                           where="src/primitives/threshold.rs")
+            for nm, wk in (("and_n", size), ("or_n", 1)):
+                r = m.call_callee({"def": fns[nm], "resolved": fns[nm], "name": nm, "targs": ["T"]}, [PyVec(list(elems))])
+                n += 1
+                chk.obligation(rid, r.fields["k"] == wk and items_of(r) == elems, "%s|n=%d" % (nm, size), "%s gives %r" % (nm, r),
+                               where="src/primitives/threshold.rs")
+    except Unsupported as e:
+        chk.fail(rid, "unanalysable", "unanalysable: %s" % e, where=e.where, kind="unanalysable")
+    except Panic as e:
+        chk.fail(rid, "panic", "panic: %s" % e, where="src/primitives/threshold.rs")
+    chk.floor(rid, "cases", n, 80)
+
+
 def run(chk):
     F = chk.facts()
     chk.explanation = (
@@ -756,3 +842,4 @@ def run(chk):
     chk.guard("R20.8", "whole-descriptor-visit", wholedesc.check_visit, chk, F, "R20.8")
     chk.guard("R20.9", "whole-descriptor-translate", wholedesc.check_translate, chk, F, "R20.9")
     chk.guard("R20.10", "tree-iterators", check_tree_iterators, chk, F)
+    chk.guard("R20.11", "threshold-combinators", check_threshold_combinators, chk, F)
